@@ -252,7 +252,30 @@ func runC16(p *Prog, l *Ledger) {
 					}
 				}
 				if !hasW {
-					return true
+					// told without a change: harmless only if what listeners are told is the estimate as it stands
+					for _, e := range evs {
+						if e.n == nil || !e.n.ParamOK || e.val == nil {
+							continue
+						}
+						argRoot, _ := convChain(pa.Resolve(e.val, e.step))
+						isEst := false
+						if fr, _, ok := loadedField(argRoot); ok && sameField(fr, info.Field) {
+							isEst = true
+						}
+						if call, ok := argRoot.(*ssa.Call); ok {
+							if c := p.CallOf(call); atomicOpOf(c.Name) == "Load" && len(c.Args) == 1 {
+								if fa, ok := c.Args[0].(*ssa.FieldAddr); ok {
+									if fr, _, _ := fieldOf(fa); sameField(fr, info.Field) {
+										isEst = true
+									}
+								}
+							}
+						}
+						if !isEst {
+							bad = append(bad, fmt.Sprintf("%s: listeners are told %s on a path that does not store the estimate: what they hold then differs from EstimatedLimit(): %s", p.At(e.ins), valueString(argRoot), joinWitness(p.DescribePath(pa))))
+						}
+					}
+					return len(bad) < 3
 				}
 				npaths++
 				last := evs[len(evs)-1]
